@@ -113,8 +113,26 @@ pub fn explore(ctx: &Ctx) {
     let lats = [0.0, 30.0, -30.0, 49.0, -49.0, 55.0, -55.0, 62.0, -62.0, 67.5, -67.5, 70.0, -70.0];
     let zs: Vec<(f64, f64)> = if quick { vec![(25.0, 2.0)] } else { vec![(25.0, 2.0), (-122.0, -8.0)] };
     let dates: Vec<NaiveDate> = if quick { dates_of_years(&[2023, 2024]) } else { { let mut ys: Vec<i32> = (1600..2400).step_by(20).collect(); ys.extend([2023, 2024, 2399]); ys.into_iter().flat_map(|y| dates_years(y, y)).collect() } };
-    let pols = policies14(48.5);
+    let mut pols = policies14(48.5);
+    // the nearest-latitude policies carry a payload: other substitute latitudes than the default one
+    for sub in if quick { vec![45.0, 52.0] } else { vec![45.0, 46.3, 52.0, 40.0] } {
+        use ExtremeLatitudeMethod::*;
+        pols.extend([NearestLatitudeAllPrayersAlways(lat_of(sub)), NearestLatitudeFajrIshaAlways(lat_of(sub)), NearestLatitudeFajrIshaInvalid(lat_of(sub))]);
+    }
     let mut jobs = vec![];
+    // off-lattice sites and zones running hours ahead of / behind the meridian (evening times near 24:00,
+    // morning times near 00:00: the wrap of the derived hours is exercised under every policy)
+    let mut extra = off_lattice_sites(quick, 70.0);
+    extra.extend([Site::new(39.47, 75.99, 1290.0, 8.0), Site::new(55.0, 60.0, 0.0, 9.0), Site::new(-49.0, -60.0, 0.0, 1.0), Site::new(62.0, 25.0, 0.0, -3.0)]);
+    for s in &extra {
+        for (i, m) in NAMED8.iter().enumerate() {
+            if quick && i % 2 == 0 && s.lat.abs() < 45.0 && s.gmt != 8.0 {
+                continue;
+            }
+            jobs.push((*s, *m));
+        }
+    }
+    ctx.alphabet("extra_sites", json!(extra));
     for &lat in &lats {
         for &(lon, gmt) in &zs {
             for m in NAMED8 {
